@@ -104,6 +104,25 @@ def block_order(body):
     return order
 
 
+class _TypeTemplate:
+    """what a value of a type prints as when it is handed to `ToTokens::to_token_stream` as a fn item"""
+
+    def __init__(self, ty):
+        self.ty = ty
+        self.events = [None]
+        self.by_stream = {}
+        self.b = None
+
+    def root_streams(self):
+        return [0]
+
+    def render(self, stream, depth=0, seen=None, follow="fns", argmap=None):
+        return ["⟨%s⟩" % tag(self.ty)]
+
+    def stream_alts(self, local):
+        return []
+
+
 class Templates:
     """Token events of one generator function."""
 
@@ -257,11 +276,30 @@ class Templates:
             # `cond.then(|| quote!(..))`, `opt.map(|x| quote!(..))`: the tokens come from the closure;
             # `opt.map_or_else(|| quote!(..), |x| quote!(..))`: from either closure
             names = []
+            typed = []
             for a in d[3]["args"]:
+                if a["k"] == "const" and "fn" in a and re.search(r"ToTokens(>)?::(to_token_stream|into_token_stream)$", a.get("resolved") or a["fn"]):
+                    # `opt.map_or_else(|| quote!(..), ToTokens::to_token_stream)`: the value prints itself
+                    tys = a.get("targs") or []
+                    typed.append(_TypeTemplate(tys[0] if tys else "?"))
                 if a["k"] in ("copy", "move") and not a["p"]["proj"]:
                     for d2 in b.defs().get(a["p"]["local"], []):
                         if d2[2] == "assign" and d2[3]["r"]["k"] == "aggregate" and d2[3]["r"]["agg"] == "closure":
                             names.append(d2[3]["r"]["closure"])
+            if typed and names:
+                for nm in names:
+                    if nm not in idx:
+                        idx[nm] = None
+                        raws = [r for r in b.crate["bodies"] if r["key"] == nm]
+                        if len(raws) == 1:
+                            t_ = Templates(mir.Body(raws[0], b.crate))
+                            if t_.events:
+                                idx[nm] = t_
+                    if idx[nm] is None:
+                        return None
+                    found.append(idx[nm])
+                found.extend(typed)
+                continue
             if len(names) > 1:
                 for nm in names:
                     if nm not in idx:
@@ -295,12 +333,17 @@ class Templates:
                             fw = self._forwarded(cb, types, 0)
                             if fw is not None:
                                 idx[name] = fw[0]
-                                if fw[1] is not None:
+                                if fw[1] is not None and fw[1][0] == "captures":
+                                    idx[("captures", name)] = fw[1][1]
+                                elif fw[1] is not None:
                                     idx[("call", name)] = fw[1]
             if idx[name] is None:
                 return None
             found.append(idx[name])
-            if direct:
+            if direct and ("captures", name) in idx:
+                self._calls = getattr(self, "_calls", {})
+                self._calls[id(tk)] = (self, d[3], idx[("captures", name)])
+            elif direct:
                 self._calls = getattr(self, "_calls", {})
                 self._calls[id(tk)] = (self, d[3])
             elif ("call", name) in idx:
@@ -342,7 +385,21 @@ class Templates:
                     cb5 = mir.Body(r5[0], b.crate)
                     t5 = Templates(cb5)
                     if t5.events:
-                        cands.append((t5, None))
+                        # which of the closure's locals stand for which parameter of `cb` (captures)
+                        capmap = {}
+                        for _b5, _i5, st5 in cb5.stmts():
+                            if st5["k"] != "assign" or st5["p"]["proj"]:
+                                continue
+                            r_ = st5["r"]
+                            pl = r_["op"]["p"] if r_["k"] == "use" and r_["op"]["k"] in ("copy", "move") else (r_["p"] if r_["k"] in ("ref", "rawptr") else None)
+                            if pl and pl["local"] == 1:
+                                flds = [e_ for e_ in pl["proj"] if e_["k"] == "field"]
+                                if len(flds) == 1 and flds[0]["i"] < len(st["r"]["ops"]):
+                                    op_ = st["r"]["ops"][flds[0]["i"]]
+                                    root_ = ref_root(cb, op_) if op_["k"] in ("copy", "move") else None
+                                    if root_ is not None and 1 <= root_ <= cb.arg_count:
+                                        capmap[st5["p"]["local"]] = root_
+                        cands.append((t5, ("captures", capmap)))
                     elif depth < 2:
                         fw = self._forwarded(cb5, types, depth + 1)
                         if fw is not None:
@@ -355,7 +412,16 @@ class Templates:
         rec = getattr(self, "_calls", {}).get(id(tk))
         if not rec:
             return None
+        if len(rec) == 3:
+            # the template sits in a closure built by the helper: its captured locals stand for the
+            # helper's parameters, i.e. for the caller's arguments
+            owner, call, capmap = rec
+            base = self._argmap_from(owner, call, depth, follow)
+            return {loc: base[p] for loc, p in capmap.items() if p in base} or None
         owner, call = rec
+        return self._argmap_from(owner, call, depth, follow)
+
+    def _argmap_from(self, owner, call, depth, follow):
         out = {}
         for i, a in enumerate(call["args"]):
             if a["k"] not in ("copy", "move"):
